@@ -131,8 +131,28 @@ package remote
 // is the stream offset of the next piece, [destOff, destOff+len(dest)) the window the caller wants. Every call advances
 // the stream position by exactly len(p) and copies exactly the overlap of the piece with the window, byte for byte.
 //@ func (bw *bytesWriter) Write
-//@   props C06
+//@   props C06,C02
 //@   arith math
 //@   requires 0 <= bw.current && 0 <= bw.destOff
 //@   modifies bw.current, bw.dest[*]
-//@   ensures[C06] result0 == len(p) && result1 == nil && bw.current == old(bw.current) + len(p)
+//@   ensures[C06,C02] result0 == len(p) && result1 == nil && bw.current == old(bw.current) + len(p)
+
+// ---- C04: the retry delay is computed from the registry's Retry-After header (any integer, zero and negative included):
+// computing the jitter must not crash on any of them ----
+//@ func github.com/hashicorp/go-retryablehttp.DefaultBackoff
+//@   trusted
+//@   ensures true
+//@ func jitter
+//@   props C04
+//@   ensures[C04] duration <= 0 ==> result == duration
+//@ func backoffStrategy
+//@   props C04
+// parsing what the registry sent back (Content-Range headers, multipart bodies): no crash on any reply
+//@ func parseRange
+//@   props C04
+//@ func (sr *multipartReader) Next
+//@   props C04
+//@ func (sr *singlepartReader) Next
+//@   props C04
+//@ func retryStrategy
+//@   props C04
